@@ -96,10 +96,17 @@ def cscd(rng, std, pk):
     if rng.random() < 0.4:
         # the dictionary comes from a decoded VPD 83h designation descriptor: it also carries that page's own keys
         params.update(piv=1, protocol_identifier=rng.choice([5, 6, 15]))
-    return {"descriptor_type_code": 0xE4, "peripheral_device_type": rng.choice([0, 5, 0x0E]), "lu_id_type": 0,
+    dt = rng.choice([0, 5, 0x0E, 1, 3])
+    if dt == 1:
+        dts = {"pad": rng.getrandbits(1), "fixed": rng.getrandbits(1), "stream_block_length": pick(rng, 2 ** 24 - 1)}
+    elif dt == 3:
+        dts = {"pad": rng.getrandbits(1)}
+    else:
+        dts = {"pad": rng.getrandbits(1), "disk_block_length": pick(rng, 2 ** 24 - 1)}
+    return {"descriptor_type_code": 0xE4, "peripheral_device_type": dt, "lu_id_type": 0,
             "relative_initiator_port_identifier": pick(rng, 65535),
             pk: params,
-            "device_type_specific_parameters": {"pad": rng.getrandbits(1), "disk_block_length": pick(rng, 2 ** 24 - 1)}}
+            "device_type_specific_parameters": dts}
 
 
 def segment(rng, std):
@@ -124,7 +131,8 @@ def run(chk, replay=None):
         "MODE DATA LENGTH of a MODE SELECT list may be 0 (reserved) or the MODE SENSE value",
         "EXTENDED COPY: CSCD descriptors of type E4h with NAA designators and segment types 00h 01h 02h 0Bh 0Ch 0Dh "
         "(the ones the library implements); LID4 header layout as in SPC-4 r37; CSCD peripheral device types 00h / 05h / 0Eh "
-        "(block devices both classes accept; the SPC-5 class refuses 04h and 07h, which is not judged), LU ID TYPE 0 (the "
+        "(block devices both classes accept; the SPC-5 class refuses 04h and 07h, which is not judged), 01h (sequential access: "
+        "FIXED, STREAM BLOCK LENGTH) and 03h (processor), LU ID TYPE 0 (the "
         "only value the library accepts), CODE SET and ASSOCIATION over their whole field width",
     ]
     if replay is not None:
